@@ -1,28 +1,31 @@
 #!/bin/sh
 # tools/confirm_seed.sh <property> <i>: confirm a seeded change in a scratch worktree:
 #  demo passes on the unchanged tree, fails with the change, and the pinned test suite still passes with the change.
+# optional: <srcdir> <srci> (where the sub-agent left patch<srci>.diff / demo<srci>.py / meta<srci>.json), stored as index <i>
 P=$1; I=$2
-SRC=/tmp/seeded/$P
+SRC=${3:-/tmp/seeded/$P}
+SI=${4:-$I}
 WT=/tmp/wt/confirm_${P}_$I
 OUT=/verif/seeded/$P
 mkdir -p $OUT
 git -C /repo worktree remove --force $WT 2>/dev/null
 git -C /repo worktree add --detach -q $WT HEAD || exit 3
 cd $WT
-PYTHONPATH=$WT /venv/bin/python $SRC/demo$I.py > /tmp/confirm_${P}_${I}_clean.log 2>&1; rc_clean=$?
-git apply $SRC/patch$I.diff || { echo "patch does not apply"; cd /; git -C /repo worktree remove --force $WT; exit 3; }
-PYTHONPATH=$WT /venv/bin/python $SRC/demo$I.py > /tmp/confirm_${P}_${I}_mut.log 2>&1; rc_mut=$?
+PYTHONPATH=$WT /venv/bin/python $SRC/demo$SI.py > /tmp/confirm_${P}_${I}_clean.log 2>&1; rc_clean=$?
+git apply $SRC/patch$SI.diff || { echo "patch does not apply"; cd /; git -C /repo worktree remove --force $WT; exit 3; }
+PYTHONPATH=$WT /venv/bin/python $SRC/demo$SI.py > /tmp/confirm_${P}_${I}_mut.log 2>&1; rc_mut=$?
 PYTHONPATH=$WT nice -n 10 /venv/bin/python -m pytest -q -p no:cacheprovider --timeout=1800 -x test/ > /tmp/confirm_${P}_${I}_tests.log 2>&1; rc_tests=$?
 summary=$(grep -aE "[0-9]+ (passed|failed)" /tmp/confirm_${P}_${I}_tests.log | tail -1)
 cd /
 git -C /repo worktree remove --force $WT
-cp $SRC/patch$I.diff $OUT/patch$I.diff; cp $SRC/demo$I.py $OUT/demo$I.py
-python3 - "$P" "$I" "$rc_clean" "$rc_mut" "$rc_tests" "$summary" <<'PY'
+cp $SRC/patch$SI.diff $OUT/patch$I.diff; cp $SRC/demo$SI.py $OUT/demo$I.py
+python3 - "$P" "$I" "$rc_clean" "$rc_mut" "$rc_tests" "$summary" "$SRC" "$SI" <<'PY'
 import json, sys
-P, I, rc_clean, rc_mut, rc_tests, summary = sys.argv[1:7]
-src = json.load(open(f"/tmp/seeded/{P}/meta{I}.json"))
+P, I, rc_clean, rc_mut, rc_tests, summary, SRC, SI = sys.argv[1:9]
+src = json.load(open(f"{SRC}/meta{SI}.json"))
+src["property"] = P
 src.update(confirmed=dict(demo_exit_unchanged_tree=int(rc_clean), demo_exit_with_change=int(rc_mut), test_suite_exit_with_change=int(rc_tests),
-                          test_suite_summary=summary, base_commit=open("/repo/.git/HEAD").read().strip()),
+                          test_suite_summary=summary, base_commit=__import__("subprocess").check_output(["git", "-C", "/repo", "rev-parse", "HEAD"]).decode().strip()),
            ran=[f"PYTHONPATH=<worktree> /venv/bin/python demo{I}.py (unchanged tree and with patch{I}.diff applied)",
                 "PYTHONPATH=<worktree> /venv/bin/python -m pytest -q -p no:cacheprovider test/ (with the patch applied)"])
 json.dump(src, open(f"/verif/seeded/{P}/meta{I}.json", "w"), indent=1)
